@@ -1,0 +1,28 @@
+//go:build verif
+
+package protocol
+
+import "github.com/fxamacker/cbor/v2"
+
+// SimCanonicalEncoding, when set by a simulator, makes every handler emit its round messages with the
+// keys of all encoded maps sorted. Go iterates maps in random order, so the bytes of a map-bearing
+// message (and every echo hash over them) otherwise differ between executions that are identical in
+// every other respect, and between two instances of one party. Off by default.
+var SimCanonicalEncoding bool
+
+var simEnc, _ = cbor.EncOptions{Sort: cbor.SortBytewiseLexical}.EncMode()
+
+func simCanon(data []byte) []byte {
+	if !SimCanonicalEncoding {
+		return data
+	}
+	var v interface{}
+	if err := cbor.Unmarshal(data, &v); err != nil {
+		return data
+	}
+	out, err := simEnc.Marshal(v)
+	if err != nil || len(out) != len(data) {
+		return data
+	}
+	return out
+}
